@@ -281,6 +281,62 @@ package fsm
 //@   ensures[dexwithdraw] isnil(err) && typeis(msg, *MessageDexLiquidityWithdraw) ==> oneSigner(signers, bytes(dyn(msg, *MessageDexLiquidityWithdraw).Address))
 //@   ensures[closed] isnil(err) ==> typeis(msg, *MessageSend) || typeis(msg, *MessageStake) || typeis(msg, *MessageEditStake) || typeis(msg, *MessageUnstake) || typeis(msg, *MessagePause) || typeis(msg, *MessageUnpause) || typeis(msg, *MessageChangeParameter) || typeis(msg, *MessageDAOTransfer) || typeis(msg, *MessageSubsidy) || typeis(msg, *MessageCertificateResults) || typeis(msg, *MessageCreateOrder) || typeis(msg, *MessageEditOrder) || typeis(msg, *MessageDeleteOrder) || typeis(msg, *MessageDexLimitOrder) || typeis(msg, *MessageDexLiquidityDeposit) || typeis(msg, *MessageDexLiquidityWithdraw)
 
+// authorizedFor(msg, a): a is one of the addresses the property authorizes for msg (see above)
+//@ spec func validatorOwner(v BSeq, a BSeq) bool = a == v || a == valOutput(v)
+//@ spec func authorizedFor(msg lib.MessageI, a BSeq) bool = (typeis(msg, *MessageSend) ==> a == bytes(dyn(msg, *MessageSend).FromAddress)) && (typeis(msg, *MessageStake) ==> a == keyAddr(bytes(dyn(msg, *MessageStake).PublicKey)) || a == bytes(dyn(msg, *MessageStake).OutputAddress)) && (typeis(msg, *MessageEditStake) && dyn(msg, *MessageEditStake).Address != nil ==> validatorOwner(bytes(dyn(msg, *MessageEditStake).Address), a)) && (typeis(msg, *MessageUnstake) && dyn(msg, *MessageUnstake).Address != nil ==> validatorOwner(bytes(dyn(msg, *MessageUnstake).Address), a)) && (typeis(msg, *MessagePause) && dyn(msg, *MessagePause).Address != nil ==> validatorOwner(bytes(dyn(msg, *MessagePause).Address), a)) && (typeis(msg, *MessageUnpause) && dyn(msg, *MessageUnpause).Address != nil ==> validatorOwner(bytes(dyn(msg, *MessageUnpause).Address), a)) && (typeis(msg, *MessageChangeParameter) ==> a == bytes(dyn(msg, *MessageChangeParameter).Signer)) && (typeis(msg, *MessageDAOTransfer) ==> a == bytes(dyn(msg, *MessageDAOTransfer).Address)) && (typeis(msg, *MessageSubsidy) ==> a == bytes(dyn(msg, *MessageSubsidy).Address)) && (typeis(msg, *MessageCertificateResults) ==> a == keyAddr(bytes(dyn(msg, *MessageCertificateResults).Qc.ProposerKey))) && (typeis(msg, *MessageCreateOrder) ==> a == bytes(dyn(msg, *MessageCreateOrder).SellersSendAddress)) && (typeis(msg, *MessageEditOrder) ==> a == orderSeller(dyn(msg, *MessageEditOrder).ChainId)[bytes(dyn(msg, *MessageEditOrder).OrderId)]) && (typeis(msg, *MessageDeleteOrder) ==> a == orderSeller(dyn(msg, *MessageDeleteOrder).ChainId)[bytes(dyn(msg, *MessageDeleteOrder).OrderId)]) && (typeis(msg, *MessageDexLimitOrder) ==> a == bytes(dyn(msg, *MessageDexLimitOrder).Address)) && (typeis(msg, *MessageDexLiquidityDeposit) ==> a == bytes(dyn(msg, *MessageDexLiquidityDeposit).Address)) && (typeis(msg, *MessageDexLiquidityWithdraw) ==> a == bytes(dyn(msg, *MessageDexLiquidityWithdraw).Address))
+// the fields filled in after the signature check come from the VERIFIED signer, and nothing that decides
+// authorization is touched
+// (the only TransactionI is *lib.Transaction, whose GetHash is checked `pure` in package lib)
+//@ func (lib.TransactionI).GetHash
+//@   trusted
+//@   pure
+//@ func (*StateMachine).PopulateSpecialMessageFields
+//@   modifies MessageStake.Signer, MessageEditStake.Signer, MessageChangeParameter.ProposalHash, MessageDAOTransfer.ProposalHash, MessageCreateOrder.OrderId, MessageDexLimitOrder.OrderId, MessageDexLiquidityDeposit.OrderId, MessageDexLiquidityWithdraw.OrderId
+//@   ensures[stakesigner] typeis(msg, *MessageStake) ==> bytes(dyn(msg, *MessageStake).Signer) == addrOf(signer)
+//@   ensures[editsigner] typeis(msg, *MessageEditStake) ==> bytes(dyn(msg, *MessageEditStake).Signer) == addrOf(signer)
+// Recipient() is a read-only getter in every message type (each implementation is checked `pure`; that the
+// interface call dispatches to one of them is how Go works)
+//@ func (lib.MessageI).Recipient
+//@   trusted
+//@   pure
+//@ func (*MessageCertificateResults).Recipient
+//@   pure
+//@ func (*MessageChangeParameter).Recipient
+//@   pure
+//@ func (*MessageCreateOrder).Recipient
+//@   pure
+//@ func (*MessageDAOTransfer).Recipient
+//@   pure
+//@ func (*MessageDeleteOrder).Recipient
+//@   pure
+//@ func (*MessageDexLimitOrder).Recipient
+//@   pure
+//@ func (*MessageDexLiquidityDeposit).Recipient
+//@   pure
+//@ func (*MessageDexLiquidityWithdraw).Recipient
+//@   pure
+//@ func (*MessageEditOrder).Recipient
+//@   pure
+//@ func (*MessageEditStake).Recipient
+//@   pure
+//@ func (*MessagePause).Recipient
+//@   pure
+//@ func (*MessageSend).Recipient
+//@   pure
+//@ func (*MessageStake).Recipient
+//@   pure
+//@ func (*MessageSubsidy).Recipient
+//@   pure
+//@ func (*MessageUnpause).Recipient
+//@   pure
+//@ func (*MessageUnstake).Recipient
+//@   pure
+// a transaction passes CheckTx only with a sender that the message's rules authorize
+//@ func (*StateMachine).CheckTx
+//@   ensures[authorized] isnil(err) && !result.plugin ==> !isnil(result.sender) && authorizedFor(result.msg, addrOf(result.sender))
+//@   ensures[stakesigner] isnil(err) && !result.plugin && typeis(result.msg, *MessageStake) ==> bytes(dyn(result.msg, *MessageStake).Signer) == addrOf(result.sender)
+//@   ensures[editsigner] isnil(err) && !result.plugin && typeis(result.msg, *MessageEditStake) ==> bytes(dyn(result.msg, *MessageEditStake).Signer) == addrOf(result.sender)
+
 // ---- C12: staking bookkeeping ---------------------------------------------------------------------------------
 // Abstract key/value view of the working store (ghost kvHas: which keys are present), seen through the
 // FSM's Set/Delete wrappers (assumed; store semantics are decided separately under C10), and the key
